@@ -22,7 +22,12 @@ def cases(tier):
     out = []
     for n in range(1, nmax + 1):
         for edges in multigraphs(0, n, lmax, max_mult=2, no_fixed_fixed=False, min_links=0, connected=False):
-            out.append({"n": n, "edges": [list(e) for e in edges]})
+            if 2 * len(edges) >= 8:
+                # 2^8 .. 2^10 layers: one case per choice of valves at the first three incidences (keeps a case far below the horizon)
+                for bits in itertools.product((0, 1), repeat=3):
+                    out.append({"n": n, "edges": [list(e) for e in edges], "part": list(bits)})
+            else:
+                out.append({"n": n, "edges": [list(e) for e in edges]})
     return out
 
 
@@ -184,6 +189,8 @@ def run_case(s):
     for r in range(len(inc) + 1):
         for layer in itertools.combinations(inc, r):
             layer = list(layer)
+            if s.get("part") is not None and [int(x in layer) for x in inc[:3]] != list(s["part"]):
+                continue
             variants = [None]
             if 1 <= len(layer) <= 3:
                 variants += [(k, w) for k in range(len(layer)) for w in ("after", "end")]
